@@ -398,3 +398,124 @@ def g_moderate(F, rng, tier):
     for k, r in enumerate(out):
         r["id"] = k + 1
     return out
+
+
+# ------------------------------------------------------------- C09 chains
+
+def any_form(ds, e10, rng):
+    """one representation of int(ds)*10^e10 (ds without leading zeros)"""
+    return rng.choice(forms(ds, e10, rng, nforms=3, long_ok=(len(ds) < 60)))
+
+
+def chain_of(F, vals, rng, tag):
+    """vals: ascending list of (digits, e10); members get random forms"""
+    mem = []
+    for (ds, e) in vals:
+        ds = ds.lstrip("0")
+        if ds == "":
+            mem.append(("", "", e))
+        else:
+            mem.append(any_form(ds, e, rng))
+    return {"kind": "chain", "fmt": F.name, "tag": tag,
+            "members": [{"int": i, "frac": f, "exp": e} for (i, f, e) in mem]}
+
+
+def g_chains(F, rng, tier):
+    q = tier == "quick"
+    out = []
+    P = 1 << F.p
+    # 1. successive significands across seams
+    bases = [P - 3, 2 * P - 3, 10 ** 19 - 4, (1 << 64) - 3, 10 ** 18 - 3, (2 << F.mbits) - 2, 10 ** 15 - 2, 10 ** 16 - 2,
+             10 ** 7 - 2, 10 ** 8 - 2]
+    exps = [0, 1, -1, F.fast_exp, F.fast_exp + 1, -F.fast_exp, -F.fast_exp - 1, F.disg_exp, F.disg_exp + 1, F.tie_lo,
+            F.tie_hi, 30, -30, F.p10_lo + 25, F.p10_hi - 22]
+    for w0 in bases:
+        for e in (rng.sample(exps, 4) if q else exps):
+            out.append(chain_of(F, [(str(w0 + d), e) for d in range(7)], rng, "C09:succ-sig"))
+    # disguised fast path limit
+    for shift in range(1, F.disg_exp - F.fast_exp + 1):
+        lim = (2 << F.mbits) // 10 ** shift
+        out.append(chain_of(F, [(str(lim + d), F.fast_exp + shift) for d in range(-2, 4) if lim + d > 0], rng, "C09:disguised"))
+    # 2./5. around midpoints
+    fields = rng.sample(range(0, F.emaxfield), 40 if q else 200) + [0, 1, F.emaxfield - 1]
+    for ef in fields:
+        fr = rng.choice(sig_patterns(F, rng, 2))
+        bits = (ef << F.mbits) | fr
+        M, k = F.midpoint(bits)
+        ds, e10 = exact_decimal(M, k)
+        v = int(ds)
+        # nines-tail < exact < zeros (=) < far1 < +1
+        z = rng.choice([1, 5, 30, 800, 2000])
+        vals = [(str(v - 1), e10), (str(v - 1) + "9" * z, e10 - z), (ds, e10), (ds + "0" * z, e10 - z),
+                (ds + "0" * z + "1", e10 - z - 1), (ds + "1", e10 - 1), (str(v + 1), e10)]
+        out.append(chain_of(F, vals, rng, "C09:midpoint"))
+        # successive last digits of the first 17..20 digits
+        n = len(ds)
+        for nd in (19, 20, 17):
+            if n > nd:
+                pre = ds[:nd - 1]
+                out.append(chain_of(F, [(pre + str(d), e10 + n - nd) for d in range(10)], rng, "C09:last-digit"))
+                # truncated vs full
+                out.append(chain_of(F, [(ds[:nd], e10 + n - nd), (ds[:nd + 1], e10 + n - nd - 1), (ds, e10),
+                                        (str(int(ds[:nd]) + 1), e10 + n - nd)], rng, "C09:trunc"))
+                break
+    # 3. same digits, successive exponents
+    for ds in ("1", "9", "17", "123456789", "9007199254740993", "18446744073709551615", "99999999999999999999", "5"):
+        for lo in (-F.fast_exp - 3, F.fast_exp - 2, F.disg_exp - 2, F.p10_lo - 2, F.p10_hi - len(ds) - 2, -5):
+            out.append(chain_of(F, [(ds, e) for e in range(lo, lo + 6)], rng, "C09:succ-exp"))
+    # range ends
+    for (M, k) in ((1, F.etiny - 1), (1, F.etiny), ((1 << F.mbits), F.etiny), ((1 << (F.p + 1)) - 1, F.emax - F.p)):
+        ds, e10 = exact_decimal(M, k)
+        v = int(ds)
+        vals = [(str(v - 2), e10), (str(v - 1), e10), (str(v - 1) + "9" * 50, e10 - 50), (ds, e10), (ds + "0" * 60 + "1", e10 - 61),
+                (str(v + 1), e10), (str(v + 2), e10)]
+        out.append(chain_of(F, vals, rng, "C09:range-end"))
+    for k, r in enumerate(out):
+        r["id"] = k + 1
+    return out
+
+
+# ------------------------------------------------------------- C10 groups
+
+def g_groups(F, rng, tier):
+    q = tier == "quick"
+    out = []
+
+    def group(ds, e10, tag):
+        n = len(ds)
+        mem = []
+        ks = list(range(0, n + 1)) if n <= 24 else sorted(set([0, 1, 18, 19, 20, n - 1, n] + rng.sample(range(0, n + 1), 6)))
+        for k in ks:
+            z = rng.choice([0, 0, 1, 2, 17, 40])
+            mem.append((ds[:k], ds[k:] + "0" * z, e10 + n - k))
+        mem.append(("", "0" * 3 + ds, e10 + n + 3))
+        mem.append(("", "0" * 30 + ds + "0" * 5, e10 + n + 30))
+        for j in (1, 2, 5, 25):
+            mem.append((ds + "0" * j, "", e10 - j))
+            mem.append((ds + "0" * j, "0" * j, e10 - j))
+        out.append({"kind": "group", "fmt": F.name, "tag": tag,
+                    "members": [{"int": i, "frac": f, "exp": e} for (i, f, e) in mem]})
+
+    for _ in range(40 if q else 600):
+        nd = rng.choice([1, 2, 5, 15, 16, 17, 18, 19, 20, 21, 25, 40])
+        ds = str(rng.randrange(10 ** (nd - 1), 10 ** nd))
+        group(ds, rng.randrange(-40, 40), "C10:random")
+    fields = rng.sample(range(0, F.emaxfield), 25 if q else 250) + [0, F.emaxfield - 1]
+    for ef in fields:
+        bits = (ef << F.mbits) | rng.choice(sig_patterns(F, rng, 2))
+        M, k = F.midpoint(bits)
+        ds, e10 = exact_decimal(M, k)
+        group(ds, e10, "C10:midpoint")
+        if len(ds) > 19:
+            group(ds[:19], e10 + len(ds) - 19, "C10:mid19")
+            group(ds[:20], e10 + len(ds) - 20, "C10:mid20")
+        m, e = F.decode(bits)
+        if m:
+            ds2, e2 = exact_decimal(m, e)
+            group(ds2, e2, "C10:float")
+    for ds in ("1", "10", "10000", "12345678901234567890", "9999999999999999999", "18446744073709551616"):
+        for e in (0, F.fast_exp, F.fast_exp + 1, -F.fast_exp - 1, F.disg_exp, F.p10_hi - len(ds), F.p10_lo + 5, 4, 8):
+            group(ds.rstrip("0") or "1", e + len(ds) - len(ds.rstrip("0")), "C10:seam")
+    for k, r in enumerate(out):
+        r["id"] = k + 1
+    return out
